@@ -759,7 +759,7 @@ type rIdent struct {
 	name  string
 }
 
-func genRandom(rng *rand.Rand, idx int) tcase {
+func genRandom(rng *rand.Rand, idx int, hist bool) tcase {
 	nMods := 1 + rng.Intn(3)
 	nSubs := rng.Intn(4)
 	if rng.Intn(4) == 0 {
@@ -949,7 +949,7 @@ func genRandom(rng *rand.Rand, idx int) tcase {
 	nLeaves := rng.Intn(3)
 	for l := 0; l < nLeaves; l++ {
 		from := rng.Intn(len(roots))
-		lf := gLeaf{Name: fmt.Sprintf("l%d", l), HasBase: true}
+		lf := gLeaf{Name: fmt.Sprintf("l%d", l), HasBase: true, Form: rng.Intn(4)}
 		switch p := rng.Intn(100); {
 		case p < 3:
 			lf.HasBase = false
@@ -962,6 +962,48 @@ func genRandom(rng *rand.Rand, idx int) tcase {
 			lf.Base = ref(from, ids[t].group, ids[t].name)
 		}
 		roots[from].Leaves = append(roots[from].Leaves, lf)
+	}
+	if hist {
+		// A history: everything is loaded and processed, then a NEWER REVISION of a module or
+		// submodule that declares identities arrives and Process runs again.  Identityrefs in all
+		// four forms name an identity of it, from other roots and from itself.
+		var cand []int
+		for k := range ids {
+			if ids[k].group >= 0 {
+				cand = append(cand, k)
+			}
+		}
+		if len(cand) > 0 {
+			t := cand[rng.Intn(len(cand))]
+			ri := ids[t].root
+			R := roots[ri]
+			if len(R.Revisions) == 0 {
+				R.Revisions = []string{"2020-01-01"}
+			}
+			for form := 0; form < 4; form++ {
+				from := rng.Intn(len(roots))
+				if form == 0 && len(roots) > 1 {
+					for from == ri {
+						from = rng.Intn(len(roots))
+					}
+				}
+				roots[from].Leaves = append(roots[from].Leaves, gLeaf{Name: fmt.Sprintf("h%d", form), HasBase: true, Form: form,
+					Base: ref(from, ids[t].group, ids[t].name)})
+			}
+			R2 := *R
+			R2.Revisions = append([]string{"2023-03-03"}, R.Revisions...)
+			R2.Idents = append([]gIdent(nil), R.Idents...)
+			if rng.Intn(3) != 0 {
+				R2.Idents = append(R2.Idents, gIdent{Name: "newer", Bases: []string{ids[t].name}})
+			}
+			if rng.Intn(4) == 0 && len(R2.Idents) > 1 {
+				R2.Idents[len(R2.Idents)-1], R2.Idents[0] = R2.Idents[0], R2.Idents[len(R2.Idents)-1]
+			}
+			rng.Shuffle(len(roots), func(i, j int) { roots[i], roots[j] = roots[j], roots[i] })
+			split := len(roots)
+			roots = append(roots, &R2)
+			return tcase{Tag: fmt.Sprintf("history #%d", idx), Files: filesOfRev(roots), Runs: 3, Split: split}
+		}
 	}
 	if len(roots[0].Revisions) > 0 && rng.Intn(12) == 0 {
 		// a second revision of module m0 (older or newer): same keys in the identity dictionary
@@ -995,7 +1037,24 @@ func seedCases() []tcase {
 		}
 		return tc
 	}
+	mkH := func(tag string, split int, texts ...string) tcase {
+		tc := mk(tag, texts...)
+		tc.Split = split
+		return tc
+	}
 	return []tcase{
+		mkH("history: newer revision of the module that declares the base (identityref direct, leaf-list, union, typedef)", 2,
+			`module base { namespace "urn:base"; prefix b; revision 2020-01-01; identity BASE; identity OLD { base BASE; } }`,
+			`module user { namespace "urn:user"; prefix u; import base { prefix b; } identity MINE { base b:BASE; }
+			   typedef base-ref { type identityref { base b:BASE; } }
+			   leaf direct { type identityref { base b:BASE; } } leaf-list many { type identityref { base b:BASE; } }
+			   leaf un { type union { type string; type identityref { base b:BASE; } } } leaf viatypedef { type base-ref; } }`,
+			`module base { namespace "urn:base"; prefix b; revision 2021-01-01; revision 2020-01-01; identity BASE; identity OLD { base BASE; } identity NEW { base BASE; } }`),
+		mkH("history: newer revision of the submodule that declares the base", 3,
+			`module m { namespace "urn:m"; prefix m; include s; identity TOP; leaf direct { type identityref { base BASE; } } leaf un { type union { type string; type identityref { base m:BASE; } } } }`,
+			`submodule s { belongs-to m { prefix m; } revision 2020-01-01; identity BASE { base TOP; } identity OLD { base BASE; } leaf insub { type identityref { base BASE; } } }`,
+			`module n { namespace "urn:n"; prefix n; import m { prefix m; } identity Z { base m:BASE; } leaf-list far { type identityref { base m:BASE; } } }`,
+			`submodule s { belongs-to m { prefix m; } revision 2022-02-02; identity BASE { base TOP; } identity OLD { base BASE; } identity NEW { base OLD; } leaf insub { type identityref { base BASE; } } }`),
 		mk("D3 self loop", `module m { namespace "urn:m"; prefix m; identity a { base a; } }`),
 		mk("D3 two-cycle", `module m { namespace "urn:m"; prefix m; identity a { base b; } identity b { base a; } identity c { base a; } identity top; identity d { base top; } }`),
 		mk("D3 cycle across modules",
@@ -1329,9 +1388,23 @@ func main() {
 		hi := min(lo+batch, nRandom)
 		cases := make([]tcase, 0, hi-lo)
 		for i := lo; i < hi; i++ {
-			tc := genRandom(f.Rand(1000+i), i)
+			tc := genRandom(f.Rand(1000+i), i, false)
 			tc.Runs = runs
 			cases = append(cases, tc)
+		}
+		processBatch(cases)
+	}
+
+	// ---- histories: a newer revision of an identity-declaring (sub)module arrives between two Process calls
+	nHist := 6000
+	if f.Thorough() {
+		nHist = 200000
+	}
+	for lo := 0; lo < nHist && examined < 50; lo += batch {
+		hi := min(lo+batch, nHist)
+		cases := make([]tcase, 0, hi-lo)
+		for i := lo; i < hi; i++ {
+			cases = append(cases, genRandom(f.Rand(5000000+i), i, true))
 		}
 		processBatch(cases)
 	}
@@ -1339,12 +1412,13 @@ func main() {
 	res.Evaluations = nCases
 	res.DistinctNontrivial = nNontrivial
 	res.Exhaustive = true
-	res.Rule = "source sets = corpus + seed witnesses + COMPLETE enumeration of small graphs (all directed graphs incl. self-loops on <= 3 identities and all DAGs on 4 identities; every assignment of the identities to two roots; roots = two modules importing each other | module + included submodule; distinct names | equal names across the two modules; the two modules with different | the same own prefix; bases written with and without prefix; one identityref leaf) + seeded random schemas (1-3 modules, 0-3 submodules included directly / by another submodule / by a foreign module / by nobody / belonging to an absent module, include cycles, 1-12 identities with 0-3 bases, names from a pool with upper/lower case and punctuation, own prefixes from a pool of two (modules often share one), import prefixes independent and legal by default, rarely clashing, names reused across modules, revisions and revision-dates, cycles, dangling and unknown-prefix bases, duplicate statements, missing imports/includes, identityref leaves). Every set: several fresh Modules under permuted load orders, all Go results must be equal; Go result = model result (under two map-order oracles); specification evaluated on the Go result. exhaustive refers to the small-graph space. distinct_nontrivial = distinct source sets whose Go result has an identity with a non-empty list or an identity/cycle error"
+	res.Rule = "source sets = corpus + seed witnesses + COMPLETE enumeration of small graphs (all directed graphs incl. self-loops on <= 3 identities and all DAGs on 4 identities; every assignment of the identities to two roots; roots = two modules importing each other | module + included submodule; distinct names | equal names across the two modules; the two modules with different | the same own prefix; bases written with and without prefix; one identityref leaf) + seeded random schemas (1-3 modules, 0-3 submodules included directly / by another submodule / by a foreign module / by nobody / belonging to an absent module, include cycles, 1-12 identities with 0-3 bases, names from a pool with upper/lower case and punctuation, own prefixes from a pool of two (modules often share one), import prefixes independent and legal by default, rarely clashing, names reused across modules, revisions and revision-dates, cycles, dangling and unknown-prefix bases, duplicate statements, missing imports/includes, identityref leaves, leaf-lists, union members and typedef'd identityrefs) + seeded histories (such a schema, then a newer revision of a module or submodule that declares a referenced identity, with identityrefs of all four forms naming it). Every set: several fresh Modules under permuted load orders, all Go results must be equal, a second Process, a history on one Modules (part of the texts, Process, the rest, Process) and ToEntry-before-Process must end in the same result (identityref items name the identity OBJECT by the revision that declares it and carry the list seen through it); Go result = model result (under two map-order oracles); specification evaluated on the Go result. exhaustive refers to the small-graph space. distinct_nontrivial = distinct source sets whose Go result has an identity with a non-empty list or an identity/cycle error"
 	res.Distribution["by_generator"] = tags
 	res.Distribution["go_outcomes"] = outcomes
 	res.Distribution["seed_and_corpus_cases"] = nSeed
 	res.Distribution["small_graph_cases"] = len(small)
 	res.Distribution["random_cases"] = nRandom
+	res.Distribution["history_cases"] = nHist
 	res.Distribution["go_runs_per_random_case"] = runs
 	res.Distribution["driver_requests"] = nReqs
 	res.Write(f.Out)
